@@ -23,7 +23,6 @@ import (
 	"github.com/circlefin/noble-cctp/x/cctp/types"
 	"github.com/cosmos/cosmos-sdk/runtime"
 	sdk "github.com/cosmos/cosmos-sdk/types"
-	"github.com/cosmos/cosmos-sdk/types/query"
 	"google.golang.org/grpc/codes"
 	"google.golang.org/grpc/status"
 )
@@ -53,7 +52,7 @@ func (k Keeper) Attesters(c context.Context, req *types.QueryAllAttestersRequest
 	adapter := runtime.KVStoreAdapter(k.storeService.OpenKVStore(ctx))
 	attestersStore := prefix.NewStore(adapter, types.KeyPrefix(types.AttesterKeyPrefix))
 
-	pageRes, err := query.Paginate(attestersStore, req.Pagination, func(key []byte, value []byte) error {
+	pageRes, err := paginate(attestersStore, req.Pagination, func(key []byte, value []byte) error {
 		var Attester types.Attester
 		if err := k.cdc.Unmarshal(value, &Attester); err != nil {
 			return err
